@@ -1,7 +1,8 @@
 """C04 — adapter lookup returns the most specific applicable registration."""
 from . import regcommon
 
-THEOREMS = ["ZI.Lookup.lookupRec_eq_first"]
+THEOREMS = ["ZI.Registry.lookupRec_eq_first", "ZI.Registry.mem_rpaths", "ZI.Registry.C04_sound", "ZI.Registry.C04_complete", "ZI.Registry.C04_best",
+            "ZI.Registry.rpaths_first_position", "ZI.Registry.C04_chain", "ZI.Lookup.lookupRec_eq_first"]
 PROFILE = dict(weights=[6, 1, 1, 0.5, 0.7, 0.1, 0], queries=["lookup", "lookup1", "lookupAll"], nregs=(1, 3), extra_queries=4,
                arity=[0, 1, 1, 2, 2, 2, 3])
 
